@@ -220,13 +220,31 @@ def shapes(tier):
 
 
 # ------------------------------------------------------------------ builders
-def make(shape, v, mode, steps, inst=None, _share=None):
+_SUBCLS = {}
+
+
+def sub_instance(shape):
+    """an instance of a trivial USER SUBCLASS of the ABI value class of a base type (class Flag(abi.Bool): pass):
+    same type spec, other Python class"""
+    assert isinstance(shape, str)
+    if shape not in _SUBCLS:
+        base = type(spec(shape).new_instance())
+        _SUBCLS[shape] = type("User" + base.__name__, (base,), {})
+    return _SUBCLS[shape]()
+
+
+def make(shape, v, mode, steps, inst=None, _share=None, _sub=False):
     """build an instance holding v (or fill the given one); appends the setup expressions to steps;
     mode 'lit' | 'expr' | 'lit-shared' (equal parts of equal type are ONE ABI object used at several positions,
     as in `t.set(flag, other, flag)`)"""
     sp = spec(shape)
     if mode == "lit-shared":
         mode, _share = "lit", ({} if _share is None else _share)
+    if mode == "lit-sub":
+        # every base-type part is an instance of a user subclass of its ABI class
+        mode, _sub = "lit", True
+    if _sub and inst is None and isinstance(shape, str):
+        inst = sub_instance(shape)
     if _share is not None and inst is None:
         key = (repr(shape), repr(v))
         if key in _share:
@@ -247,10 +265,10 @@ def make(shape, v, mode, steps, inst=None, _share=None):
         return inst
     k = shape[0]
     if k in ("sarr", "darr"):
-        elems = [make(shape[1], x, mode, steps, _share=_share) for x in v]
+        elems = [make(shape[1], x, mode, steps, _share=_share, _sub=_sub) for x in v]
         steps.append(inst.set(elems))
         return inst
-    elems = [make(s, x, mode, steps, _share=_share) for s, x in zip(shape[1:], v)]
+    elems = [make(s, x, mode, steps, _share=_share, _sub=_sub) for s, x in zip(shape[1:], v)]
     steps.append(inst.set(*elems))
     return inst
 
